@@ -50,15 +50,16 @@ def ref_is_open(ts):
 
 OPEN = [ref_is_open(t) for t in INSTANTS]
 
+# assets: 'A' and 'Bq' (a symbol with a lower-case letter - symbols need not be upper case)
 # quote tables (bid, ask) as decimal literals; Q2 is crossed so that ask-for-a-buy cannot be
 # implemented as min/max; Q3 is sub-dollar
 QUOTES = [
-    {'A': ('10.37', '10.41'), 'B': ('24.90', '25.15')},
-    {'A': ('11.02', '11.09'), 'B': ('23.55', '23.80')},
-    {'A': ('9.96', '9.91'), 'B': ('25.40', '25.20')},
-    {'A': ('0.37', '0.38'), 'B': ('0.52', '0.55')},
-    {'A': ('10.50', '10.50'), 'B': ('25.50', '25.50')},   # symmetric (bid = ask)
-    {'A': ('98765.43', '98770.01'), 'B': ('0.0101', '0.0102')},   # very large / very small prices
+    {'A': ('10.37', '10.41'), 'Bq': ('24.90', '25.15')},
+    {'A': ('11.02', '11.09'), 'Bq': ('23.55', '23.80')},
+    {'A': ('9.96', '9.91'), 'Bq': ('25.40', '25.20')},
+    {'A': ('0.37', '0.38'), 'Bq': ('0.52', '0.55')},
+    {'A': ('10.50', '10.50'), 'Bq': ('25.50', '25.50')},   # symmetric (bid = ask)
+    {'A': ('98765.43', '98770.01'), 'Bq': ('0.0101', '0.0102')},   # very large / very small prices
 ]
 
 
@@ -207,6 +208,7 @@ class BrokerMachine(object):
         self.step_txns = []
         self.filled_ids = {}
         self.submitted = 0
+        self.labels_used = set()      # user-chosen order ids seen so far (part of the canonical key: ids may repeat)
 
     # ------------------------------------------------------------------ recording seam
     def _wrap(self, pid):
@@ -222,9 +224,14 @@ class BrokerMachine(object):
     def now(self):
         return INSTANTS[self.clock]
 
+    def quoted_master(self):
+        """the master balance as a statement would quote it: rounded to cents (may exceed the true balance by a
+        fraction of a cent, in which case transferring it must be refused)"""
+        return round(float(self.master), 2)
+
     def touched(self, ev):
         """Portfolios whose history can have grown in the step that executed ev."""
-        if ev[0] in ('pf_sub', 'pf_wd', 'pf_direct_sub'):
+        if ev[0] in ('pf_sub', 'pf_wd', 'pf_direct_sub', 'pf_sub_quoted'):
             return {ev[1]}
         if ev[0] == 'tick':
             return set(pid for pid, _ in self.step_txns)
@@ -285,9 +292,17 @@ class BrokerMachine(object):
                 raise HarnessError('pf_direct_sub on unknown portfolio in alphabet')
             if F(ev[2]) < 0 or ev[3] < self.pfs[ev[1]].clock:
                 expect_exc = ValueError
-        elif kind == 'submit':
+        elif kind in ('submit', 'submit_labelled'):
             if ev[1] not in self.pfs:
                 expect_exc = KeyError
+        elif kind == 'pf_sub_quoted':
+            a = F(repr(self.quoted_master()))
+            if ev[1] not in self.pfs:
+                expect_exc = KeyError
+            elif a > self.master:
+                expect_exc = ValueError
+            elif self.clock < self.pfs[ev[1]].clock:
+                expect_exc = ValueError
         before = None
         if check and expect_exc is not None:
             try:
@@ -312,6 +327,14 @@ class BrokerMachine(object):
                 self.submitted += 1
                 o = Order(self.now(), ev[2], int(ev[3]), order_id='o%d' % self.submitted)
                 b.submit_order(ev[1], o)
+            elif kind == 'submit_labelled':
+                # the user supplies his own order id and reuses the label (ids need not be unique)
+                from qstrader.execution.order import Order
+                o = Order(self.now(), ev[2], int(ev[3]), order_id='rebalance-%s' % ev[2])
+                self.labels_used.add(o.order_id)
+                b.submit_order(ev[1], o)
+            elif kind == 'pf_sub_quoted':
+                b.subscribe_funds_to_portfolio(ev[1], self.quoted_master())
             elif kind == 'quotes':
                 self.dh.table = int(ev[1])
             elif kind == 'tick':
@@ -393,6 +416,15 @@ class BrokerMachine(object):
             p.hist.append(('withdrawal', self.clock, a, Fraction(0), p.cash))
         elif kind == 'submit':
             self.pfs[ev[1]].pending.append((ev[2], int(ev[3]), 'o%d' % self.submitted))
+        elif kind == 'submit_labelled':
+            self.pfs[ev[1]].pending.append((ev[2], int(ev[3]), 'rebalance-%s' % ev[2]))
+        elif kind == 'pf_sub_quoted':
+            p = self.pfs[ev[1]]
+            a = F(repr(self.quoted_master()))
+            self.master -= a
+            p.cash += a
+            p.clock = self.clock
+            p.hist.append(('subscription', self.clock, Fraction(0), a, p.cash))
         elif kind == 'quotes':
             pass
         elif kind == 'mark':
@@ -451,8 +483,6 @@ class BrokerMachine(object):
                         fails.append(fail('C04.submission_order', {'portfolio': pid, 'side': side,
                                                                    'expected': exp_ids, 'actual': act_ids}))
         for pid, t in actual:
-            if t.order_id in self.filled_ids:
-                fails.append(fail('C04.filled_twice', {'order': t.order_id}))
             self.filled_ids[t.order_id] = self.filled_ids.get(t.order_id, 0) + 1
         # ---- C05: price side, commission, stamp of every recorded fill
         for pid, t in actual:
@@ -658,7 +688,7 @@ class BrokerMachine(object):
         five orders below the smallest alphabet increment."""
         b = self.broker
         parts = [self.clock, self.dh.table, round(float(b.get_account_cash_balance(b.base_currency)), 7),
-                 str(self.master)]
+                 str(self.master), tuple(sorted(self.labels_used))]
         for pid, p in self.pfs.items():
             port = b.portfolios[pid]
             pos = []
@@ -667,7 +697,7 @@ class BrokerMachine(object):
                                     if isinstance(v, (int, float, np.floating, np.integer))))
                 pos.append((asset, vals))
             parts.append((pid, p.clock, str(getattr(port, 'current_dt', '')), round(float(port.cash), 7), tuple(sorted(pos)),
-                          tuple((a, q) for a, q, _ in self.pending_impl(pid)),
+                          tuple((a, q, oid if str(oid).startswith('rebalance-') else '') for a, q, oid in self.pending_impl(pid)),
                           str(p.cash), tuple(sorted((a, mp.qty, str(mp.last), mp.clock) for a, mp in p.pos.items())),
                           tuple((a, q) for a, q, _ in p.pending)))
         return digest(tuple(parts))
@@ -787,8 +817,8 @@ def next_open(clock):
 # ------------------------------------------------------------------------------------------
 PERIODIC_PREFIX = (('acct_sub', '900000'), ('create', '1'), ('create', '2'), ('pf_sub', '1', '300000'),
                    ('pf_sub', '2', '300000'), ('tick', 3))
-PERIODIC_EVENTS = [('submit', '1', 'A', 3), ('submit', '1', 'A', -3), ('submit', '1', 'B', 5), ('submit', '2', 'A', -8),
-                   ('submit', '2', 'B', 2), ('tick', 3), ('quotes', 1), ('quotes', 0), ('pf_sub', '1', '99.995'),
+PERIODIC_EVENTS = [('submit', '1', 'A', 3), ('submit', '1', 'A', -3), ('submit', '1', 'Bq', 5), ('submit', '2', 'A', -8),
+                   ('submit', '2', 'Bq', 2), ('tick', 3), ('quotes', 1), ('quotes', 0), ('pf_sub', '1', '99.995'),
                    ('pf_wd', '1', '16.667')]
 
 
